@@ -81,6 +81,9 @@ pub fn replay(_ctx: &Ctx, path: &std::path::Path) -> i32 {
             1
         }
         (Err(e), _) | (_, Err(e)) => {
+            if e.starts_with("unknown or malformed replay kind") {
+                return 3; // caller falls back to re-running the exploration
+            }
             println!("MACHINERY-FAILURE: {}", e);
             2
         }
